@@ -11,10 +11,13 @@ def stateIs (s : String) (st : State) : Prop :=
   s = "any" ∨ (s = "added" ∧ st = .added) ∨ (s = "modified" ∧ st = .modified) ∨
   (s = "renamed" ∧ st = .moved) ∨ (s = "removed" ∧ st = .removed) ∨ (s = "unmodified" ∧ st = .noop)
 
-/-- a duration condition: only alerting rules with the field present can satisfy it -/
+/-- a duration condition: only alerting rules whose field IS a duration can satisfy it ("duration comparisons with
+their operator"); a value that does not parse is neither longer nor shorter than anything.  Until fix 9516199 the
+code let such a value satisfy every comparison, and this spec had been written after the code: a spec copied from
+the implementation proves nothing about it (DESIGN §11). -/
 def durSatisfied (c : Option (DurOp × Nat)) (e : Entry) (d : RuleDur) : Prop :=
   ∀ op lim, c = some (op, lim) →
-    e.kind = .alerting ∧ (d = .unparsable ∨ ∃ v, d = .dur v ∧ op.holds v lim = true)
+    e.kind = .alerting ∧ ∃ v, d = .dur v ∧ op.holds v lim = true
 
 /-- all conditions of one match / ignore sub-block hold for the rule -/
 structure Satisfied (re : Re) (m : Match) (cmd : String) (e : Entry) : Prop where
